@@ -312,6 +312,7 @@ class Check:
         self.distinct = set()
         self.samples = []
         self.viol = []          # (key, summary, replay)
+        self._written = set()
         self.known_hits = {}    # finding id -> summary
         self.hist = {}
         self.extra = {}
@@ -359,7 +360,8 @@ class Check:
             self.known_hits[f['id']] = f.get('summary', summary)
             return None
         d = os.path.join(self.replay_root, h(key))
-        if len(self.viol) < 40:
+        if len(self._written) < 60 and key not in self._written:
+            self._written.add(key)
             shutil.rmtree(d, ignore_errors=True)
             os.makedirs(d, exist_ok=True)
             for name, data in (files or {}).items():
